@@ -49,8 +49,18 @@ STUBS = ('stub instructions / actor subclassing the public base classes (the pro
 FAMILIES = ('conf', 'parse', 'sym', 'pre', 'setup-main', 'post', 'prepare', 'execute', 'ba-main', 'assert-main')
 
 
+_CANON = {}
+
+
 def canonical(n) -> List[Tuple[tuple, str]]:
-    """All non-cleanup-main cells in the documented order, each with its family."""
+    """All non-cleanup-main cells in the documented order, each with its family (cached per n)."""
+    n = tuple(n)
+    if n not in _CANON:
+        _CANON[n] = _canonical(n)
+    return _CANON[n]
+
+
+def _canonical(n) -> List[Tuple[tuple, str]]:
     nconf, nsetup, nba, nassert, ncleanup = n
     cells = []
     for i in range(nconf):
